@@ -154,8 +154,13 @@ def add_maybe_exponent_stripped(x, y):
         ym = y
         ye = 0.0
 
-    # perform branchless for jit etc.
     e = max(xe, ye)
+    if e == float("-inf"):
+        # both terms are exactly zero (``check_zero=True`` marks zero results
+        # with an exponent of -inf) -> avoid computing inf - inf = nan
+        return (xm + ym, e)
+
+    # perform branchless for jit etc.
     m = xm * 10 ** (xe - e) + ym * 10 ** (ye - e)
 
     return (m, e)
